@@ -20,13 +20,18 @@ PAYLOADS = {
     "non-ascii": "é漢字ß",
     "line-separator": "a b",
     "hash-raw": 'a"#b',
+    # alphanumeric for char::is_alphanumeric, but neither identifier characters nor XML name characters
+    "non-identifier-alphanumerics": "m²₂½①",
+    "digits-first": "9³x",
 }
 # valid XSD integer lexical forms that are not (all) valid Rust literals
 XSD_LEXICAL = {"plus-sign": "+7", "plus-zero-padded": "+007", "zero-padded": "007", "blank-padded": "  7\t", "minus-zero": "-0"}
 TEXT_POSITIONS = ["enumeration", "numeric-facet", "length-facet", "doc-simple", "doc-complex", "target-namespace",
                   "imported-namespace", "address", "soap-action",
                   # the same URI positions with a non-hierarchical URI (urn:...): URL normalisation percent-encodes much less there
-                  "target-namespace-opaque-uri", "imported-namespace-opaque-uri", "address-opaque-uri", "soap-action-opaque-uri"]
+                  "target-namespace-opaque-uri", "imported-namespace-opaque-uri", "address-opaque-uri", "soap-action-opaque-uri",
+                  # the payload at the very start of the last path segment, where prefix / module abbreviations are taken from
+                  "target-namespace-leading", "imported-namespace-leading"]
 MARK = "ZQXMARK"
 
 
@@ -134,6 +139,12 @@ def payload_matrix():
     for cls, payload in PAYLOADS.items():
         for pos in TEXT_POSITIONS:
             marked = f"{MARK}{payload}{MARK}"
+            if pos.endswith("-leading"):
+                text = "http://zv.test/c14/" + payload + MARK
+                ss = base_program(texts={pos[:-len("-leading")]: text})
+                ss.features = {f"payload:{cls}", f"text-position:{pos}"}
+                out.append((cls, pos, text, ss))
+                continue
             if pos.endswith("-opaque-uri"):
                 ss = base_program(texts={pos[:-len("-opaque-uri")]: "urn:zv:c14:" + marked})
                 ss.features = {f"payload:{cls}", f"text-position:{pos}"}
